@@ -266,6 +266,9 @@ def check(ctx):
     cases = [T.UADouble(0.0), T.UADouble(-0.0), T.UAFloat(-0.0), T.UAFloat(0.0), T.UADouble(1.0), T.UADouble(1),
              T.UAListOf((T.UADouble(-0.0), T.UADouble(0.0)), "Double"), T.UAListOf((T.UAFloat(0.0), T.UAFloat(-0.0)), "Float"),
              T.UAEURange(low=-0.0, high=0.0), T.UAEURange(low=0.0, high=-0.0),
+             # text with every character XML treats specially, in every order, and the one sequence that is special as a whole
+             T.UAString("x[y[0]]>z"), T.UAString("a > b >= c"), T.UAString("]]>"), T.UAString("<![CDATA[x]]>"), T.UAGuid("g]]>"), T.UALocalizedText("t]]>u", "en"),
+             T.UAListOf((T.UAString("]]>"), T.UAString("&<>\"'")), "String"), T.UAString("&amp;"), T.UAString("&#65;"),
              # nested lists (depth two and three, an empty inner list), the 64-bit extremes and 2**53 + 1
              T.UAListOf((T.UAListOf((T.UAInt32(1), T.UAInt32(2)), "Int32"), T.UAListOf((), "Int32")), "ListOfInt32"),
              T.UAListOf((T.UAListOf((T.UAListOf((T.UAString("a"),), "String"),), "ListOfString"),), "ListOfListOfString"),
